@@ -453,7 +453,7 @@ func LoadReplay(path string) (*ReplayFile, error) {
 // Pinned runs the pinned cases of a property: for every finding of the
 // property whose replay file names the given test, run(case) is called; it
 // returns a non-empty message when the case (still) violates the property.
-// known+failing → KNOWN-FINDING line; known+passing → note; fixed+failing →
+// known+failing → KNOWN-FINDING line; known+passing → KNOWN-FINDING line and a note; fixed+failing →
 // violation; fixed+passing → silent.
 func Pinned(t TB, property, test string, run func(c json.RawMessage) string) {
 	t.Helper()
@@ -475,7 +475,9 @@ func Pinned(t TB, property, test string, run func(c json.RawMessage) string) {
 		case f.Status == "known" && msg != "":
 			Known(property, f.What)
 		case f.Status == "known" && msg == "":
-			Note("known finding %q no longer reproduces", f.Key)
+			// still listed (some findings are schedule-dependent and do not show in every run)
+			Known(property, f.What)
+			Note("known finding %q did not reproduce in this run", f.Key)
 		case f.Status == "fixed" && msg != "":
 			Failf(t, test, json.RawMessage(r.Case), "fixed finding %q has returned: %s", f.Key, msg)
 		}
